@@ -12,6 +12,7 @@ import (
 	"sort"
 	"strings"
 	"sync"
+	"time"
 
 	"github.com/anz-bank/sysl/pkg/arrai/relmod"
 	"github.com/anz-bank/sysl/pkg/parse"
@@ -23,7 +24,8 @@ import (
 )
 
 type replay struct {
-	Kind  string `json:"kind"` // corpus | gen
+	Kind  string `json:"kind"` // corpus | gen | direct
+	Seed  uint64 `json:"seed,omitempty"` // direct: the module is genDirect(seed)
 	File  string `json:"file,omitempty"`
 	Text  string `json:"text,omitempty"`
 	Strip string `json:"strip,omitempty"` // "", "all", "ep": source contexts removed after compiling (as in a model loaded from .pb/.json)
@@ -71,6 +73,8 @@ func compile(rp replay, repo string) (*sysl.Module, error) {
 		}()
 		if rp.Kind == "corpus" {
 			m, err = parse.NewParser().ParseFromFs(filepath.Join(repo, rp.File), afero.NewOsFs())
+		} else if rp.Kind == "direct" {
+			m = genDirect(rp.Seed)
 		} else {
 			m, err = parse.NewParser().ParseString(rp.Text)
 		}
@@ -155,7 +159,9 @@ func main() {
 	c.Res.Rule = "each case = one module compiled by the real parser (a corpus .sysl file, or a generated specification with namespaced apps, " +
 		"attributes incl. nested arrays, types/tables/enums/aliases/unions, simple/REST/event/subscriber endpoints and statement forests; " +
 		"every third generated case has a chain of depth 5-9 with >= 2 siblings per level; some have their source contexts stripped as in a " +
-		"re-loaded compiled model); relmod.Normalize runs twice on it; distinct = distinct source text; non-trivial = the module has at least " +
+		"re-loaded compiled model; or a module built directly as protobuf from a seed, with the well-formed shapes the parser does not " +
+		"produce: numbered loops, empty alt / action / payload, untyped parameters, several constraints, list / map / one-of types, " +
+		"attributes on every statement kind, one spine of depth 5-8 with >= 2 siblings per level); relmod.Normalize runs twice on it; distinct = distinct source text; non-trivial = the module has at least " +
 		"one statement nested under a block statement"
 
 	if c.Replay != "" {
@@ -194,12 +200,12 @@ func main() {
 		j := c.Rng.Intn(i + 1)
 		files[i], files[j] = files[j], files[i]
 	}
-	nCorpus, nGen := 70, 110
+	nCorpus, nGen, nDirect := 60, 90, 120
 	if c.Thorough() {
-		nCorpus, nGen = len(files), 1500
+		nCorpus, nGen, nDirect = len(files), 1200, 2500
 	}
 	if c.Search {
-		nGen *= 3
+		nGen, nDirect = nGen*3, nDirect*3
 	}
 	if nCorpus > len(files) {
 		nCorpus = len(files)
@@ -224,26 +230,33 @@ func main() {
 		inputs = append(inputs, &caseResult{rp: rp, genInfo: g})
 	}
 
-	// ---- compile sequentially (the parser is not what is under test here), normalize in parallel
-	for _, cr := range inputs {
-		cr.m, cr.perr = compile(cr.rp, repo)
+	for i := 0; i < nDirect; i++ {
+		inputs = append(inputs, &caseResult{rp: replay{Kind: "direct", Seed: c.Rng.Uint64() >> 1}})
 	}
+
+	// ---- compile and normalize, a few inputs at a time (each parse.Parser is independent; the parser itself reads
+	// imports concurrently)
+	t0 := time.Now()
 	var wg sync.WaitGroup
-	sem := make(chan struct{}, 12)
+	sem := make(chan struct{}, 8)
 	for _, cr := range inputs {
-		if cr.m == nil {
-			continue
-		}
 		wg.Add(1)
 		go func(cr *caseResult) {
 			defer wg.Done()
 			sem <- struct{}{}
+			defer func() { <-sem }()
+			cr.m, cr.perr = compile(cr.rp, repo)
+			if cr.m == nil {
+				return
+			}
 			cr.o1 = normalize(cr.m)
 			cr.o2 = normalize(cr.m)
-			<-sem
 		}(cr)
 	}
 	wg.Wait()
+	fmt.Fprintf(os.Stderr, "c17: compile + normalize (x2) %.1fs\n", time.Since(t0).Seconds())
+	t0 = time.Now()
+	defer func() { fmt.Fprintf(os.Stderr, "c17: judge+project %.1fs\n", time.Since(t0).Seconds()) }()
 
 	header := `From Coq Require Import List NArith ZArith PArith Bool. Import ListNotations.
 Require Import Verif.Relmod.Model Verif.Relmod.Run Verif.Gen.RelmodShape Verif.Base.Harness.
@@ -261,7 +274,10 @@ Definition SL := SLeaf. Definition SB := SBlock. Definition SA := SAlt.`
 			continue
 		}
 		st := moduleStats(cr.m)
-		c.Count(cr.rp.File+cr.rp.Text+cr.rp.Strip, st.nested > 0)
+		c.Count(cr.rp.File+cr.rp.Text+cr.rp.Strip+fmt.Sprint(cr.rp.Seed), st.nested > 0)
+		if cr.rp.Kind == "corpus" && cr.o1.kind == "err" {
+			c.Res.Notes = append(c.Res.Notes, "refused with an error (allowed by the property): "+cr.rp.File+": "+cr.o1.msg)
+		}
 		c.Hist(src + ":" + cr.o1.kind)
 		if cr.rp.Strip != "" {
 			c.Hist("stripped-source-contexts:" + cr.rp.Strip)
@@ -280,6 +296,9 @@ Definition SL := SLeaf. Definition SB := SBlock. Definition SA := SAlt.`
 			continue
 		}
 		cs.Add(term, cr.rp)
+		if cr.rp.Kind == "direct" && st.depth >= 5 && len(c.Res.Samples) < 2 {
+			c.Sample(map[string]interface{}{"kind": "direct", "seed": cr.rp.Seed, "outcome": cr.o1.kind, "max_depth": st.depth, "statements": st.stmts})
+		}
 		if cr.rp.Kind == "gen" && st.depth >= 5 {
 			t := cr.rp.Text
 			if len(t) > 600 {
@@ -289,6 +308,23 @@ Definition SL := SLeaf. Definition SB := SBlock. Definition SA := SAlt.`
 		}
 	}
 	cs.Close()
+}
+
+// payBad: is this return payload one the embedded payload grammar refuses? The grammar is outside the Coq model
+// (payload class PayGood / PayBad is an input of the model), so the class is observed: relmod.Normalize on a
+// module holding just this one return statement. What the model then decides - and is compared on - is how a
+// refusal propagates: which payloads are reached at all, and that one refusal refuses the whole module.
+var payCache = map[string]bool{}
+
+func (cr *caseResult) payBad(p string) bool {
+	if v, ok := payCache[p]; ok {
+		return v
+	}
+	m := &sysl.Module{Apps: map[string]*sysl.Application{"P": {Name: &sysl.AppName{Part: []string{"P"}},
+		Endpoints: map[string]*sysl.Endpoint{"E": {Name: "E", Stmt: []*sysl.Statement{{Stmt: &sysl.Statement_Ret{Ret: &sysl.Return{Payload: p}}}}}}}}}
+	o := normalize(m)
+	payCache[p] = o.kind == "err"
+	return payCache[p]
 }
 
 type mstats struct{ stmts, nested, depth, underForeach, choices int }
